@@ -149,6 +149,8 @@ type rig struct {
 	dgDead     [2]map[uint32]bool // the receiver's stream no longer accepts frames (closing frame arrived / closed locally)
 	dgLost     int                // datagrams that arrived on a dead stream (dropped legitimately)
 	dgSessDead [2]bool            // the receiving session was closed before the frame arrived
+	// bogusAccept describes the first accepted stream that the peer never opened
+	bogusAccept string
 }
 
 // modelOpen is the number of open streams a side must be counting, derived from the operations and the tap.
@@ -283,6 +285,13 @@ func (r *rig) acceptLoop(side int) {
 		st := c.(*Stream)
 		r.mu.Lock()
 		r.accepts++
+		if side == sideC || r.streams[sideC][st.id] == nil {
+			// nothing but the peer's whole messages travels on the links: a stream the peer never opened can only come
+			// from bytes that were processed although they are not one of its messages (a record cut short by a fault)
+			if r.bogusAccept == "" {
+				r.bogusAccept = fmt.Sprintf("Accept on side %d returned a stream with id %d, which the peer never opened", side, st.id)
+			}
+		}
 		r.streams[side][st.id] = &rigStream{id: st.id, side: side, st: st}
 		r.mu.Unlock()
 	}
@@ -553,6 +562,11 @@ func (r *rig) dgArrivals(li int, d vk.Dir, before, after int64) {
 // independent of the property-specific rules (content corruption).
 func (r *rig) poll() error {
 	r.mu.Lock()
+	if r.bogusAccept != "" {
+		msg := r.bogusAccept
+		r.mu.Unlock()
+		return vk.ViolateSig("stream-nobody-opened", "%s: bytes that are not a whole message of the peer were processed as one", msg)
+	}
 	var all []*rigStream
 	for side := 0; side < 2; side++ {
 		for _, s := range r.streams[side] {
